@@ -1,10 +1,12 @@
 package main
 
 import (
+	"fmt"
 	"go/ast"
 	"go/format"
 	"go/parser"
 	"go/token"
+	"os"
 	"regexp"
 	"strings"
 )
@@ -248,47 +250,56 @@ func expandOne(path string, call *ast.CallExpr, used map[string]bool) []ast.Stmt
 // and `v.` disappears. The dissolution gives up when v escapes (is used as a value), when a field name would capture a
 // name the function uses otherwise, when the struct embeds something, or when a method mentions its receiver as a value.
 func destructure(path string, fd *ast.FuncDecl) {
-	for k, st := range fd.Body.List {
-		as, ok := st.(*ast.AssignStmt)
-		if !ok || as.Tok != token.DEFINE || len(as.Lhs) != 1 || len(as.Rhs) != 1 {
-			continue
+	blocks := []*ast.BlockStmt{fd.Body}
+	ast.Inspect(fd.Body, func(n ast.Node) bool {
+		if l, ok := n.(*ast.FuncLit); ok {
+			blocks = append(blocks, l.Body)
 		}
-		v, ok := as.Lhs[0].(*ast.Ident)
-		if !ok {
-			continue
-		}
-		e := as.Rhs[0]
-		if u, ok := e.(*ast.UnaryExpr); ok && u.Op == token.AND {
-			e = u.X
-		}
-		cl, ok := e.(*ast.CompositeLit)
-		if !ok || cl.Type == nil {
-			continue
-		}
-		tname, targs := "", []ast.Expr{}
-		switch t := cl.Type.(type) {
-		case *ast.Ident:
-			tname = t.Name
-		case *ast.IndexExpr:
-			if i, ok := t.X.(*ast.Ident); ok {
-				tname, targs = i.Name, []ast.Expr{t.Index}
+		return true
+	})
+	for _, blk := range blocks {
+		for k, st := range blk.List {
+			as, ok := st.(*ast.AssignStmt)
+			if !ok || as.Tok != token.DEFINE || len(as.Lhs) != 1 || len(as.Rhs) != 1 {
+				continue
 			}
-		case *ast.IndexListExpr:
-			if i, ok := t.X.(*ast.Ident); ok {
-				tname, targs = i.Name, t.Indices
+			v, ok := as.Lhs[0].(*ast.Ident)
+			if !ok {
+				continue
 			}
-		}
-		if tname == "" {
-			continue
-		}
-		if repl := dissolve(path, fd, k, v.Name, tname, targs, cl); repl != nil {
-			fd.Body.List = repl
-			return
+			e := as.Rhs[0]
+			if u, ok := e.(*ast.UnaryExpr); ok && u.Op == token.AND {
+				e = u.X
+			}
+			cl, ok := e.(*ast.CompositeLit)
+			if !ok || cl.Type == nil {
+				continue
+			}
+			tname, targs := "", []ast.Expr{}
+			switch t := cl.Type.(type) {
+			case *ast.Ident:
+				tname = t.Name
+			case *ast.IndexExpr:
+				if i, ok := t.X.(*ast.Ident); ok {
+					tname, targs = i.Name, []ast.Expr{t.Index}
+				}
+			case *ast.IndexListExpr:
+				if i, ok := t.X.(*ast.Ident); ok {
+					tname, targs = i.Name, t.Indices
+				}
+			}
+			if tname == "" {
+				continue
+			}
+			if repl := dissolve(path, fd, blk, k, v.Name, tname, targs, cl); repl != nil {
+				blk.List = repl
+				return
+			}
 		}
 	}
 }
 
-func dissolve(path string, fd *ast.FuncDecl, at int, v, tname string, targs []ast.Expr, cl *ast.CompositeLit) []ast.Stmt {
+func dissolve(path string, fd *ast.FuncDecl, blk *ast.BlockStmt, at int, v, tname string, targs []ast.Expr, cl *ast.CompositeLit) []ast.Stmt {
 	f := parse(path) // fresh copy: method bodies are renamed in place
 	var sd *ast.StructType
 	tparams := []string{}
@@ -456,7 +467,45 @@ func dissolve(path string, fd *ast.FuncDecl, at int, v, tname string, targs []as
 			return true
 		})
 	}
-	collect(fd)
+	// scope: the block the struct lives in, the function's signature, and the function's own statements outside any
+	// other function literal (a sibling literal has its own locals)
+	collect(blk)
+	collect(fd.Type)
+	if blk != fd.Body {
+		var outer func(n ast.Node)
+		outer = func(n ast.Node) {
+			ast.Inspect(n, func(m ast.Node) bool {
+				if l, ok := m.(*ast.FuncLit); ok {
+					// descend only into the literal that contains blk
+					inside := false
+					ast.Inspect(l, func(q ast.Node) bool {
+						if q == ast.Node(blk) {
+							inside = true
+						}
+						return !inside
+					})
+					if inside && l.Body != blk {
+						for _, st := range l.Body.List {
+							outer(st)
+						}
+					}
+					return false
+				}
+				switch y := m.(type) {
+				case *ast.SelectorExpr:
+					if i, ok := y.X.(*ast.Ident); ok && i.Name == v {
+						return false
+					}
+				case *ast.Ident:
+					used[y.Name] = true
+				}
+				return true
+			})
+		}
+		for _, st := range fd.Body.List {
+			outer(st)
+		}
+	}
 	// rewrite `r.f` -> f, `r.m` -> m; any other mention of r gives up
 	bad := false
 	useCount := map[string]int{}
@@ -547,8 +596,8 @@ func dissolve(path string, fd *ast.FuncDecl, at int, v, tname string, targs []as
 		})
 	}
 	// the function itself (without the defining statement)
-	rest := append([]ast.Stmt{}, fd.Body.List[:at]...)
-	tail := fd.Body.List[at+1:]
+	rest := append([]ast.Stmt{}, blk.List[:at]...)
+	tail := blk.List[at+1:]
 	holder := &ast.BlockStmt{List: tail}
 	strip(holder, v)
 	for _, val := range vals {
@@ -666,22 +715,31 @@ func reparse(fd *ast.FuncDecl) *ast.FuncDecl {
 
 // the source-level rewrites every loop-body translator applies first
 func prepass(path string, fd *ast.FuncDecl) *ast.FuncDecl {
-	n := len(fd.Body.List)
-	before := src(fd.Body)
-	destructure(path, fd)
-	expandHelpers(path, fd)
-	inlineStmtCalls(path, fd)
-	inlineBoolGuards(path, fd)
-	normaliseSmall(fd)
-	propagateLenCap(fd)
-	normaliseIndexLoops(fd)
-	inlineGuardClosures(fd)
-	inlineOnceStartedClosures(fd)
-	normaliseCountedRecv(fd)
-	normaliseRecvLoops(fd)
-	normaliseNames(fd)
-	if len(fd.Body.List) != n || src(fd.Body) != before {
-		return reparse(fd)
+	for round := 0; round < 4; round++ {
+		n := len(fd.Body.List)
+		before := src(fd.Body)
+		destructure(path, fd)
+		expandHelpers(path, fd)
+		inlineStmtCalls(path, fd)
+		normaliseCondLoops(fd)
+		inlineBoolGuards(path, fd)
+		normaliseCondLoops(fd)
+		dropUnusedClosures(fd)
+		normaliseSmall(fd)
+		propagateLenCap(fd)
+		normaliseIndexLoops(fd)
+		inlineGuardClosures(fd)
+		inlineOnceStartedClosures(fd)
+		normaliseCountedRecv(fd)
+		normaliseRecvLoops(fd)
+		normaliseNames(fd)
+		if len(fd.Body.List) == n && src(fd.Body) == before {
+			return fd
+		}
+		fd = reparse(fd)
+		if os.Getenv("XLATE_DUMP") == fd.Name.Name {
+			fmt.Fprintf(os.Stderr, "---- %s after round %d\n%s\n", fd.Name.Name, round, printNode(fd))
+		}
 	}
 	return fd
 }
@@ -1631,6 +1689,13 @@ func inlineStmtCalls(path string, fd *ast.FuncDecl) {
 			return out
 		}
 		fd.Body.List = doList(fd.Body.List, true)
+		// marks left behind by an inlining that gave up half-way
+		ast.Inspect(fd, func(n ast.Node) bool {
+			if i, ok := n.(*ast.Ident); ok && strings.HasPrefix(i.Name, "\x00") {
+				i.Name = i.Name[1:]
+			}
+			return true
+		})
 		if !changed {
 			return
 		}
@@ -1643,20 +1708,73 @@ func inlineBody(path string, caller *ast.FuncDecl, call *ast.CallExpr, kind, lhs
 		return nil
 	}
 	args := []string{}
-	for _, a := range call.Args {
+	litArgs := map[int]*ast.FuncLit{}
+	exprArgs := map[int]ast.Expr{}
+	for k, a := range call.Args {
 		if u, ok := a.(*ast.UnaryExpr); ok && u.Op == token.AND {
 			a = u.X
 		}
+		if l, ok := a.(*ast.FuncLit); ok {
+			// a function literal without results and without `return`: its calls inside the callee are spliced below
+			if l.Type.Results != nil && len(l.Type.Results.List) != 0 {
+				return nil
+			}
+			hasRet := false
+			ast.Inspect(l.Body, func(n ast.Node) bool {
+				switch n.(type) {
+				case *ast.ReturnStmt:
+					hasRet = true
+				}
+				return true
+			})
+			if hasRet {
+				return nil
+			}
+			litArgs[k] = l
+			args = append(args, "")
+			continue
+		}
 		i, ok := a.(*ast.Ident)
 		if !ok || i.Name == "nil" || i.Name == "true" || i.Name == "false" {
-			return nil
+			// any other expression: substituted below when the parameter is used exactly once, in the callee's first statement
+			exprArgs[k] = a
+			args = append(args, "")
+			continue
 		}
 		args = append(args, i.Name)
 	}
-	f := parse(path)
-	for _, d := range f.Decls {
-		hd, ok := d.(*ast.FuncDecl)
-		if !ok || hd.Recv != nil || hd.Name.Name != h.Name || hd.Name.IsExported() || hd.Body == nil || hd.Name.Name == caller.Name.Name {
+	cands := []*ast.FuncDecl{}
+	// a local closure `h := func(…) {…}` of the caller
+	var localLit *ast.FuncLit
+	ast.Inspect(caller.Body, func(n ast.Node) bool {
+		if as, ok := n.(*ast.AssignStmt); ok && as.Tok == token.DEFINE && len(as.Lhs) == 1 && len(as.Rhs) == 1 {
+			if i, ok := as.Lhs[0].(*ast.Ident); ok && i.Name == h.Name {
+				if l, ok := as.Rhs[0].(*ast.FuncLit); ok {
+					localLit = l
+				}
+			}
+		}
+		return true
+	})
+	isLocal := false
+	if localLit != nil {
+		e, err := parser.ParseExprFrom(fset, h.Name+" (closure)", printNode(localLit), 0)
+		if err != nil {
+			return nil
+		}
+		cp := e.(*ast.FuncLit)
+		cands = append(cands, &ast.FuncDecl{Name: ast.NewIdent(h.Name), Type: cp.Type, Body: cp.Body})
+		isLocal = true
+	} else {
+		f := parse(path)
+		for _, d := range f.Decls {
+			if hd, ok := d.(*ast.FuncDecl); ok {
+				cands = append(cands, hd)
+			}
+		}
+	}
+	for _, hd := range cands {
+		if hd.Recv != nil || hd.Name.Name != h.Name || (hd.Name.IsExported() && !isLocal) || hd.Body == nil || (hd.Name.Name == caller.Name.Name && !isLocal) {
 			continue
 		}
 		for _, t := range typeParams(hd) {
@@ -1681,9 +1799,6 @@ func inlineBody(path string, caller *ast.FuncDecl, call *ast.CallExpr, kind, lhs
 			if _, variadic := p.Type.(*ast.Ellipsis); variadic {
 				return nil
 			}
-			if _, isFunc := p.Type.(*ast.FuncType); isFunc {
-				return nil // function-typed parameters: expandHelpers
-			}
 			for _, n := range p.Names {
 				params = append(params, n.Name)
 			}
@@ -1693,9 +1808,127 @@ func inlineBody(path string, caller *ast.FuncDecl, call *ast.CallExpr, kind, lhs
 		}
 		ren := map[string]string{}
 		isParam := map[string]bool{}
+		lits := map[string]*ast.FuncLit{}
+		exprSub := map[string]ast.Expr{}
 		for k, pn := range params {
-			ren[pn] = args[k]
 			isParam[pn] = true
+			if l := litArgs[k]; l != nil {
+				lits[pn] = l
+				continue
+			}
+			if e := exprArgs[k]; e != nil {
+				cnt, first := 0, 0
+				ast.Inspect(hd.Body, func(n ast.Node) bool {
+					if i, ok := n.(*ast.Ident); ok && i.Name == pn {
+						cnt++
+					}
+					return true
+				})
+				if len(hd.Body.List) > 0 {
+					ast.Inspect(hd.Body.List[0], func(n ast.Node) bool {
+						if i, ok := n.(*ast.Ident); ok && i.Name == pn {
+							first++
+						}
+						return true
+					})
+				}
+				if cnt != 1 || first != 1 {
+					return nil
+				}
+				exprSub[pn] = e
+				continue
+			}
+			ren[pn] = args[k]
+		}
+		if len(lits) > 0 {
+			// every mention of a literal parameter is a statement `p(a1, …, ak)` with identifier arguments, exactly once
+			for pn, l := range lits {
+				mentions, calls := 0, 0
+				ast.Inspect(hd.Body, func(n ast.Node) bool {
+					if i, ok := n.(*ast.Ident); ok && i.Name == pn {
+						mentions++
+					}
+					return true
+				})
+				lp := []string{}
+				if l.Type.Params != nil {
+					for _, f := range l.Type.Params.List {
+						if len(f.Names) == 0 {
+							lp = append(lp, "_")
+						}
+						for _, n := range f.Names {
+							lp = append(lp, n.Name)
+						}
+					}
+				}
+				var spl func(list []ast.Stmt) []ast.Stmt
+				spl = func(list []ast.Stmt) []ast.Stmt {
+					out := []ast.Stmt{}
+					for _, st := range list {
+						if es, ok := st.(*ast.ExprStmt); ok {
+							if c, ok := es.X.(*ast.CallExpr); ok {
+								if i, ok := c.Fun.(*ast.Ident); ok && i.Name == pn && len(c.Args) == len(lp) {
+									r2 := map[string]string{}
+									good := true
+									for q, a := range c.Args {
+										ai, ok := a.(*ast.Ident)
+										if !ok {
+											good = false
+											break
+										}
+										if lp[q] != "_" {
+											to := ai.Name
+											if t2, isP := ren[to]; isP {
+												to = t2 // the callee hands one of its own parameters on
+											}
+											r2[lp[q]] = to
+										}
+									}
+									if good && calls == 0 {
+										calls++
+										// every identifier of the literal belongs to the caller (or is one of the literal's own
+										// parameters): marked, so that the renaming of the callee's parameters leaves it alone
+										ast.Inspect(l.Body, func(n ast.Node) bool {
+											if i, ok := n.(*ast.Ident); ok && !strings.HasPrefix(i.Name, "\x00") {
+												if to, ok := r2[i.Name]; ok {
+													i.Name = "\x00" + to
+												} else {
+													i.Name = "\x00" + i.Name
+												}
+											}
+											return true
+										})
+										out = append(out, l.Body.List...)
+										continue
+									}
+								}
+							}
+						}
+						ast.Inspect(st, func(m ast.Node) bool {
+							switch y := m.(type) {
+							case *ast.BlockStmt:
+								y.List = spl(y.List)
+								return false
+							case *ast.CaseClause:
+								y.Body = spl(y.Body)
+								return false
+							case *ast.CommClause:
+								y.Body = spl(y.Body)
+								return false
+							case *ast.FuncLit:
+								return false
+							}
+							return true
+						})
+						out = append(out, st)
+					}
+					return out
+				}
+				hd.Body.List = spl(hd.Body.List)
+				if calls != 1 || mentions != 1 {
+					return nil
+				}
+			}
 		}
 		// returns
 		list := hd.Body.List
@@ -1727,12 +1960,39 @@ func inlineBody(path string, caller *ast.FuncDecl, call *ast.CallExpr, kind, lhs
 		}
 		// names
 		callerNames := map[string]bool{}
+		skipLit := map[*ast.FuncLit]bool{}
+		for _, l := range litArgs {
+			skipLit[l] = true
+		}
+		if localLit != nil {
+			skipLit[localLit] = true
+		}
 		ast.Inspect(caller, func(n ast.Node) bool {
+			if l, ok := n.(*ast.FuncLit); ok && skipLit[l] {
+				return false
+			}
 			if i, ok := n.(*ast.Ident); ok {
 				callerNames[i.Name] = true
 			}
 			return true
 		})
+		// names captured by a literal argument are the caller's too
+		for _, l := range litArgs {
+			own := map[string]bool{}
+			if l.Type.Params != nil {
+				for _, f := range l.Type.Params.List {
+					for _, n := range f.Names {
+						own[n.Name] = true
+					}
+				}
+			}
+			ast.Inspect(l.Body, func(n ast.Node) bool {
+				if i, ok := n.(*ast.Ident); ok && !own[strings.TrimPrefix(i.Name, "\x00")] {
+					callerNames[strings.TrimPrefix(i.Name, "\x00")] = true
+				}
+				return true
+			})
+		}
 		resLocal := ""
 		if i, ok := resExpr.(*ast.Ident); ok && !isParam[i.Name] {
 			resLocal = i.Name
@@ -1784,9 +2044,28 @@ func inlineBody(path string, caller *ast.FuncDecl, call *ast.CallExpr, kind, lhs
 			ren[resLocal] = lhs
 		}
 		holder := &ast.BlockStmt{List: list}
+		if len(exprSub) > 0 {
+			mapExprs(holder, func(e ast.Expr) ast.Expr {
+				if i, ok := e.(*ast.Ident); ok {
+					if to, ok := exprSub[i.Name]; ok {
+						// the caller's expression: its identifiers must not be taken for parameters of the callee
+						ast.Inspect(to, func(n ast.Node) bool {
+							if j, ok := n.(*ast.Ident); ok && !strings.HasPrefix(j.Name, "\x00") {
+								j.Name = "\x00" + j.Name
+							}
+							return true
+						})
+						return to
+					}
+				}
+				return e
+			})
+		}
 		ast.Inspect(holder, func(n ast.Node) bool {
 			if i, ok := n.(*ast.Ident); ok {
-				if to, ok := ren[i.Name]; ok {
+				if strings.HasPrefix(i.Name, "\x00") {
+					i.Name = i.Name[1:]
+				} else if to, ok := ren[i.Name]; ok {
 					i.Name = to
 				}
 			}
@@ -2286,4 +2565,103 @@ func printNode(n ast.Node) string {
 	var sb strings.Builder
 	format.Node(&sb, fset, n)
 	return sb.String()
+}
+
+// `name := func(…) {…}` at the top level of the function that is never mentioned again
+func dropUnusedClosures(fd *ast.FuncDecl) {
+	blocks := []*ast.BlockStmt{fd.Body}
+	ast.Inspect(fd.Body, func(n ast.Node) bool {
+		if l, ok := n.(*ast.FuncLit); ok {
+			blocks = append(blocks, l.Body)
+		}
+		return true
+	})
+	for _, blk := range blocks {
+		for {
+			removed := false
+			for k, st := range blk.List {
+				as, ok := st.(*ast.AssignStmt)
+				if !ok || as.Tok != token.DEFINE || len(as.Lhs) != 1 || len(as.Rhs) != 1 {
+					continue
+				}
+				i, ok := as.Lhs[0].(*ast.Ident)
+				if _, isLit := as.Rhs[0].(*ast.FuncLit); !ok || !isLit {
+					continue
+				}
+				cnt := 0
+				ast.Inspect(blk, func(n ast.Node) bool {
+					if j, ok := n.(*ast.Ident); ok && j.Name == i.Name {
+						cnt++
+					}
+					return true
+				})
+				if cnt == 1 {
+					blk.List = append(append([]ast.Stmt{}, blk.List[:k]...), blk.List[k+1:]...)
+					removed = true
+					break
+				}
+			}
+			if !removed {
+				break
+			}
+		}
+	}
+}
+
+// `for h(a…) { B }` as the last statement of a function body is `for { if !h(a…) { return }; B }` (leaving the loop
+// ends the function); `i := e; for { B; i++ }` directly before with B free of continue/break (outside nested loops and
+// literals) is `for i := e; ; i++ { B }`.
+func normaliseCondLoops(fd *ast.FuncDecl) {
+	var doBody func(b *ast.BlockStmt)
+	doBody = func(b *ast.BlockStmt) {
+		n := len(b.List)
+		if n == 0 {
+			return
+		}
+		fs, ok := b.List[n-1].(*ast.ForStmt)
+		if !ok {
+			return
+		}
+		if fs.Init == nil && fs.Post == nil && fs.Cond != nil {
+			if c, ok := fs.Cond.(*ast.CallExpr); ok {
+				if _, isId := c.Fun.(*ast.Ident); isId {
+					guard := &ast.IfStmt{Cond: &ast.UnaryExpr{Op: token.NOT, X: c}, Body: &ast.BlockStmt{List: []ast.Stmt{&ast.ReturnStmt{}}}}
+					fs.Body.List = append([]ast.Stmt{guard}, fs.Body.List...)
+					fs.Cond = nil
+				}
+			}
+		}
+		if fs.Init == nil && fs.Post == nil && fs.Cond == nil && n >= 2 && len(fs.Body.List) >= 1 {
+			as, ok := b.List[n-2].(*ast.AssignStmt)
+			inc, ok2 := fs.Body.List[len(fs.Body.List)-1].(*ast.IncDecStmt)
+			if ok && ok2 && as.Tok == token.DEFINE && len(as.Lhs) == 1 && len(as.Rhs) == 1 && inc.Tok == token.INC && src(inc.X) == src(as.Lhs[0]) {
+				jumps := false
+				for _, s := range fs.Body.List {
+					ast.Inspect(s, func(m ast.Node) bool {
+						switch m.(type) {
+						case *ast.FuncLit, *ast.ForStmt, *ast.RangeStmt:
+							return false
+						case *ast.BranchStmt:
+							jumps = true
+						}
+						return true
+					})
+				}
+				if !jumps {
+					fs.Init, fs.Post = as, inc
+					fs.Body.List = fs.Body.List[:len(fs.Body.List)-1]
+					b.List = append(append([]ast.Stmt{}, b.List[:n-2]...), fs)
+				}
+			}
+		}
+	}
+	ast.Inspect(fd, func(n ast.Node) bool {
+		switch y := n.(type) {
+		case *ast.FuncLit:
+			doBody(y.Body)
+		case *ast.FuncDecl:
+			doBody(y.Body)
+		}
+		return true
+	})
 }
